@@ -110,6 +110,13 @@ def build_attr(fields, user_where_ok=True):
         elif f.style == "positional":
             lit.append("{%d%s}" % (len(args), sp))
             args.append(f.name)
+        elif f.style == "positional_far":
+            # an explicit index of two digits: ten used filler arguments of a concrete type first
+            while len(args) < 10:
+                lit.append("{%d}" % len(args))
+                args.append("%du8" % len(args))
+            lit.append("{%d%s}" % (len(args), sp))
+            args.append(f.name)
         elif f.style == "alias":
             lit.append("{a%d%s}" % (f.i, sp))
             args.append("a%d = %s" % (f.i, f.name))
@@ -148,7 +155,7 @@ def make_item(derive, container, named, fields, level, own_where=False):
     gdecl = "<%s>" % ", ".join(gens) if gens else ""
     # positional args first, then aliases: order fields so that styles produce a valid argument list
     lit, args, ubounds, model = [], [], [], set()
-    ordered = [f for f in fields if f.style in ("positional", "expr_bound")] + [f for f in fields if f.style in ("alias", "shadow_expr", "positional_named")] + [f for f in fields if f.style == "named"]
+    ordered = [f for f in fields if f.style in ("positional", "expr_bound")] + [f for f in fields if f.style == "positional_far"] + [f for f in fields if f.style in ("alias", "shadow_expr", "positional_named")] + [f for f in fields if f.style == "named"]
     l2, a2, u2, m2 = build_attr(ordered)
     lit_s = " ".join(l2) if l2 else "text"
     attr_args = '"%s"%s' % (lit_s, (", " + ", ".join(a2)) if a2 else "")
@@ -278,14 +285,14 @@ def run(chk, tier):
                 form_sets = list(itertools.product(forms, repeat=n)) if n <= 2 else (
                     list(itertools.product(six, repeat=n)) if thorough else
                     [fs for fs in itertools.product(forms, repeat=n) if fs[0] in ("T", "vec", "plain", "assoc") and fs[2] in ("ref", "plain", "wrapper", "phantom")])
-                style_sets = list(itertools.product(STYLES + (["shadow_expr", "positional_named"] if n <= 2 else []), repeat=n))
+                style_sets = list(itertools.product(STYLES + (["shadow_expr", "positional_named", "positional_far"] if n <= 2 else []), repeat=n))
                 for fs in form_sets:
                     if named == "raw" and n == 2 and not (fs[0] in CORE_FORMS and fs[1] in CORE_FORMS):
                         continue
                     if n == 2 and not thorough and (fs[0] in NEW_FORMS or fs[1] in NEW_FORMS) and not (fs[0] in CORE_FORMS or fs[1] in CORE_FORMS):
                         continue   # quick: a later-added form is paired with the four core forms only
                     for ss in style_sets:
-                        if not thorough and n == 2 and any(f in NEW_FORMS for f in fs) and any(st in ("alias", "expr_bound", "shadow_expr", "positional_named") for st in ss):
+                        if not thorough and n == 2 and any(f in NEW_FORMS for f in fs) and any(st in ("alias", "expr_bound", "shadow_expr", "positional_named", "positional_far") for st in ss):
                             continue   # quick: the later-added forms with the three basic reference styles only
                         for rot in ((0, 1, 2) if n == 1 else (0,)):
                             fields = [Field(i, fs[i], ss[i], traits_cycle[(i + rot) % 4], named) for i in range(n)]
